@@ -3575,6 +3575,964 @@ def generate_mutation(repo, outdir, st):
         old = open(path_).read() if os.path.exists(path_) else None
         if old != t_:
             open(path_, 'w').write(t_)
+# ---------------------------------------------------------------- part 6: accumulating converters (Gen/Convert.v)
+# votelib/convert.py: the BODY of convert() of the converters that loop over the ballots and accumulate into a dictionary, and
+# votelib/util.py add_dict_to_dict.  A separate, small statement translator (class CV): every local the code mutates is threaded
+# through the term, a `for` loop - nested loops too - is a fold_left over the iterable whose state is the tuple of the locals its
+# body changes (a single local: the local itself), a conditional that updates locals is the conditional of the updated tuples.
+# Accepted subset (everything else raises Unsupported naming the node, the unit then falls back to the correspondence streams):
+#    stmt ::= x = collections.defaultdict(int) | x = {} | x = set() | x = e
+#           | d[k] += e (d a defaultdict(int) built here) | d[k] = e (d a dictionary built here or the declared in-out parameter)
+#           | s.add(e) | s.update(e) (s a set built here) | f(d, e) for a translated function that updates its first argument
+#           | if c: .. [else: ..] | if isinstance(x, collections.abc.Set): .. else: .. (x an item of a ranked ballot: a match)
+#           | if l: .. (l a list: a match that makes l[0] available) | for t in e: .. | return e (last statement only)
+#    e    ::= int | name | self.a | e (+|-|*) e | -e | not e | e and e | e or e (as tests) | e (<|<=|>|>=|==|!=) e | e [not] in s
+#           | Fraction(e, e) | len(e) | l[0] (after `if l:`) | l[:e] | frozenset(e) | frozenset(e for .. in .. [if ..] ..)
+#           | d.get(k, e) | dict(d) | {k: e for t in e} | d.items() | d.values() | a dictionary as an iterable (its keys)
+#    in a definition declared raising (RankedToCondorcetVotes.convert: dynamically typed code) also
+#           x = [] .. x.append(e) | x.extend(e) | x = isinstance(e, collections.abc.Set) | x = (e,) | l[i] | l[a:] | enumerate(l)
+#           | iterating an item / an item-or-tuple | if c: x = e (x used later: UnboundLocalError when not bound) | a call of a declared
+#           external function (a function parameter of the generated definition)
+#    there an operation that may raise sets the exception flag threaded through every loop state (Prelude/PyConv.v py_try / py_val)
+#    dictionary keys: a candidate, a frozenset of candidates, an item, a tuple of two of these, or an opaque key - encoded as wire
+#    values (Prelude/PyConv.v)
+T_I, T_K = 'item', 'key'
+
+
+def TD(k, v):
+    return ('D', k, v)        # a dictionary: association list in insertion order; iterating it gives its keys
+
+
+def TM(t):
+    return ('M', t)           # a set under construction (set() .. add / update): the list of what was added
+
+
+T_V = 'pyv'                  # an item or a tuple of items (Prelude/PyConv.v pyv)
+
+
+class TyVar:
+    """the item type of a list that starts as [] : fixed by the first append / extend"""
+    count = 0
+
+    live = []
+
+    def __init__(self):
+        TyVar.count += 1
+        self.id, self.val = TyVar.count, None
+        TyVar.live.append(self)
+
+
+CV_DICT = TD(T_K, T_Q)
+CV_APPROVAL = TD(TS(T_C), T_Q)
+CV_RANKED = TD(TL(T_I), T_Q)
+CV_SCORE = TD(TS(TP(T_C, T_Q)), T_Q)
+CV_NESTED = TD(T_K, CV_DICT)
+
+
+def cv_type(t):
+    if isinstance(t, TyVar):
+        return cv_type(t.val) if t.val is not None else '@@TV%d@@' % t.id
+    if t == T_V:
+        return 'pyv'
+    if isinstance(t, tuple) and t[0] == 'O':
+        return 'option (%s)' % cv_type(t[1])
+    if t == T_I:
+        return 'item'
+    if t == T_K:
+        return 'sx'
+    if isinstance(t, tuple) and t[0] == 'D':
+        return 'list (%s * %s)' % (cv_type(t[1]), cv_type(t[2]))
+    if isinstance(t, tuple) and t[0] in ('L', 'S', 'M'):
+        return 'list (%s)' % cv_type(t[1])
+    if isinstance(t, tuple) and t[0] == 'P':
+        return '(%s * %s)' % (cv_type(t[1]), cv_type(t[2]))
+    if isinstance(t, tuple) and t[0] == 'F':
+        return '(%s)' % ' -> '.join([cv_type(a) for a in t[1]] + [cv_type(t[2])])
+    return coq_type(t)
+
+
+CV_RESERVED = {'item', 'kc', 'kset', 'kitem', 'sx', 'A', 'L', 'IP', 'IS', 'members', 'canon_set', 'gadd', 'gset', 'gget', 'pydict',
+               'ranked', 'sballot', 'flatten', 'set_diff', 'scorer', 'conv', 'dconv', 'oconv', 'insert_c', 'st', 'it', 'hd',
+               'exn', 'pyv', 'VI', 'VT', 'cvexn', 'skipn'}
+
+
+class CV:
+    def __init__(self, known, module_names, imports, mutable_params=(), raises=False, ext=None):
+        self.raises = raises                # the definition answers value + cvexn; the flag exn' is part of every loop state
+        self.ext = ext or {}                # dotted python name -> (coq parameter, [argument types], result type, module)
+        self.pending = [] if raises else None
+        self.nh = 0
+        self.known = known                  # dotted / plain python name -> dict(coq, params=[types], mutates=0|None, ret, module)
+        self.module_names, self.imports = module_names, imports
+        self.dd = set()                     # locals bound to a collections.defaultdict(int)
+        self.mutable = set(mutable_params)  # dictionaries / sets this function may change: built here, or the declared in-out parameter
+        self.notes = []
+        self.depth = 0
+        self.n = 0
+        self._idt = TX({}, False)
+
+    # ---- names
+    def ident(self, name):
+        nm = self._idt.ident(name)
+        if nm in CV_RESERVED or re.fullmatch(r'(st|it)\d+_?\'?', nm):
+            nm += "'"
+        return nm
+
+    def need_collections(self, node, env):
+        if 'collections' in env or self.module_names.get('collections') != 'import':
+            die(node, 'the name collections is not the plain import of the collections module')
+
+    def builtin(self, name, node, env):
+        if name in env or self.module_names.get(name) is not None:
+            die(node, 'the name %s is bound by the source, the translator reads it as the builtin' % name)
+
+    def ref(self, e):
+        if isinstance(e, ast.Name):
+            return e.id
+        if isinstance(e, ast.Attribute) and isinstance(e.value, ast.Name) and e.value.id == 'self':
+            return 'self.' + e.attr
+        return None
+
+    def res(self, t):
+        if isinstance(t, TyVar):
+            return self.res(t.val) if t.val is not None else t
+        if isinstance(t, tuple):
+            return tuple(self.res(x) if isinstance(x, (tuple, TyVar)) else x for x in t)
+        return t
+
+    def lookup(self, e, env):
+        r = self.ref(e)
+        if r is None or r not in env:
+            die(e, 'unknown name')
+        t, ty = env[r]
+        ty = self.res(ty)
+        if t is not None and isinstance(ty, tuple) and ty[0] == 'O':
+            # a local bound on one path of an earlier conditional only: UnboundLocalError where it is not bound
+            return self.partial(t, 'CvUnboundLocalError', ty[1], e)
+        return t, ty
+
+    def quiet(self, f):
+        saved, self.pending = self.pending, None
+        try:
+            return f()
+        finally:
+            self.pending = saved
+
+    def filler(self, ty, node):
+        ty = self.res(ty)
+        if ty == T_B:
+            return 'false'
+        if ty == T_Z:
+            return '0%Z'
+        if ty == T_Q:
+            return '0%Q'
+        if ty == T_C:
+            return 'xH'
+        if ty == T_I:
+            return '(IP xH)'
+        if ty == T_V:
+            return '(VT [])'
+        if isinstance(ty, tuple) and ty[0] in ('L', 'S', 'M', 'D'):
+            return '[]'
+        if isinstance(ty, tuple) and ty[0] == 'P':
+            return '(%s, %s)' % (self.filler(ty[1], node), self.filler(ty[2], node))
+        die(node, 'no filler value of type %s' % (ty,))
+
+    def partial(self, term, exn, ty, node):
+        """an operation that may raise: hoisted in front of the statement (in evaluation order); sets the flag"""
+        if not self.raises:
+            die(node, 'operation that may raise %s in a definition that is not declared raising' % exn)
+        if self.pending is None:
+            die(node, 'operation that may raise %s inside a conditionally / repeatedly evaluated expression' % exn)
+        self.nh += 1
+        var = "e'h%d" % self.nh
+        self.pending.append((var, term, exn, self.filler(ty, node)))
+        return var, ty
+
+    def flush(self):
+        """the lets of the operations hoisted by the expressions just translated"""
+        hs, out = (self.pending or []), ''
+        if self.pending is not None:
+            self.pending = []
+        for var, term, exn, fl in hs:
+            out += "let exn' := (py_try exn' %s %s) in let %s := (py_val %s %s) in\n  " % (term, exn, var, term, fl)
+        return out
+
+    # ---- coercions
+    def num(self, x, want, node):
+        t, ty = x
+        if ty == want:
+            return t
+        if ty == T_Z and want == T_Q:
+            return '(inject_Z %s)' % t
+        die(node, 'type %s where %s is expected' % (ty, want))
+
+    def key(self, e, env):
+        """the wire value of e used as a dictionary key"""
+        if isinstance(e, ast.Tuple):
+            if len(e.elts) != 2:
+                die(e, 'tuple key of %d components' % len(e.elts))
+            return '(py_key_tuple2 %s %s)' % (self.key(e.elts[0], env), self.key(e.elts[1], env))
+        t, ty = self.expr(e, env)
+        if ty == T_C:
+            return '(kc %s)' % t
+        if ty == TS(T_C):
+            return '(kset %s)' % t
+        if ty == T_I:
+            return '(kitem %s)' % t
+        if ty == TS(T_I):
+            return '(py_key_itemset %s)' % t
+        if ty == T_K:
+            return t
+        die(e, 'dictionary key of type %s' % (ty,))
+
+    # ---- expressions
+    def cond(self, e, env):
+        if isinstance(e, ast.BoolOp):
+            op = ' && ' if isinstance(e.op, ast.And) else ' || '
+            return '(%s)' % op.join([self.cond(e.values[0], env)] + [self.quiet(lambda v=v: self.cond(v, env)) for v in e.values[1:]])
+        if isinstance(e, ast.UnaryOp) and isinstance(e.op, ast.Not):
+            return '(negb %s)' % self.cond(e.operand, env)
+        t, ty = self.expr(e, env)
+        if ty == T_B:
+            return t
+        if isinstance(ty, tuple) and ty[0] in ('L', 'S') and ty != TS(T_I):
+            return '(0 <? py_len %s)%%Z' % t       # truth value of a list / frozenset: non-empty
+        die(e, 'truth value of a %s' % (ty,))
+
+    def expr(self, e, env):
+        if isinstance(e, ast.Constant):
+            if isinstance(e.value, bool):
+                return ('true' if e.value else 'false'), T_B
+            if isinstance(e.value, int):
+                return '(%d)%%Z' % e.value, T_Z
+            die(e, 'constant')
+        if self.ref(e) is not None:
+            t, ty = self.lookup(e, env)
+            if t is None:
+                die(e, 'name %s cannot be used here' % self.ref(e))
+            return t, ty
+        if isinstance(e, ast.UnaryOp) and isinstance(e.op, ast.USub):
+            a = self.expr(e.operand, env)
+            if a[1] in (T_Z, T_Q):
+                return '(- %s)%%%s' % (a[0], a[1]), a[1]
+            die(e, 'unary minus of a %s' % (a[1],))
+        if isinstance(e, ast.UnaryOp) and isinstance(e.op, ast.Not):
+            return self.cond(e, env), T_B
+        if isinstance(e, ast.BinOp):
+            ops = {ast.Add: '+', ast.Sub: '-', ast.Mult: '*'}
+            a, b = self.expr(e.left, env), self.expr(e.right, env)
+            if type(e.op) in ops and a[1] in (T_Z, T_Q) and b[1] in (T_Z, T_Q):
+                ty = T_Z if (a[1], b[1]) == (T_Z, T_Z) else T_Q
+                return '(%s %s %s)%%%s' % (self.num(a, ty, e), ops[type(e.op)], self.num(b, ty, e), ty), ty
+            die(e, 'operator %s on %s / %s' % (type(e.op).__name__, a[1], b[1]))
+        if isinstance(e, ast.Compare):
+            if len(e.ops) != 1:
+                die(e, 'chained comparison')
+            op = e.ops[0]
+            a, b = self.expr(e.left, env), self.expr(e.comparators[0], env)
+            if isinstance(op, (ast.In, ast.NotIn)):
+                if a[1] == T_C and isinstance(b[1], tuple) and b[1][0] in ('L', 'S', 'M') and b[1][1] == T_C:
+                    t = '(cmem %s %s)' % (a[0], b[0])
+                    return (t if isinstance(op, ast.In) else '(negb %s)' % t), T_B
+                die(e, 'membership test on %s / %s' % (a[1], b[1]))
+            if a[1] not in (T_Z, T_Q) or b[1] not in (T_Z, T_Q):
+                die(e, 'comparison of %s / %s' % (a[1], b[1]))
+            ta, tb = self.num(a, T_Q, e), self.num(b, T_Q, e)
+            forms = {ast.Gt: '(py_gt %s %s)', ast.GtE: '(py_ge %s %s)', ast.Lt: '(py_lt %s %s)', ast.LtE: '(py_le %s %s)',
+                     ast.Eq: '(py_eq %s %s)', ast.NotEq: '(negb (py_eq %s %s))'}
+            if type(op) not in forms:
+                die(e, 'comparison operator')
+            return forms[type(op)] % (ta, tb), T_B
+        if isinstance(e, ast.Subscript):
+            sl = e.slice
+            r = self.ref(e.value)
+            if isinstance(sl, ast.Constant) and sl.value == 0 and not isinstance(sl.value, bool) and r is not None:
+                hd = env.get(('head', r))
+                if hd is None:
+                    die(e, '%s[0] outside an `if %s:` (IndexError on an empty list)' % (r, r))
+                return hd
+            if isinstance(sl, ast.Slice) and sl.lower is None and sl.step is None and sl.upper is not None:
+                a, n = self.expr(e.value, env), self.expr(sl.upper, env)
+                if isinstance(a[1], tuple) and a[1][0] == 'L' and n[1] == T_Z:
+                    return '(py_slice_to %s %s)' % (a[0], n[0]), a[1]
+            if isinstance(sl, ast.Slice) and sl.upper is None and sl.step is None and sl.lower is not None:
+                a, n = self.expr(e.value, env), self.expr(sl.lower, env)
+                if isinstance(a[1], tuple) and a[1][0] == 'L' and n[1] == T_Z:
+                    return '(py_slice_from %s %s)' % (a[0], n[0]), a[1]
+            if not isinstance(sl, ast.Slice):
+                a, n = self.expr(e.value, env), self.expr(sl, env)
+                if isinstance(a[1], tuple) and a[1][0] == 'L' and not isinstance(a[1][1], TyVar) and n[1] == T_Z:
+                    return self.partial('(py_index %s %s)' % (a[0], n[0]), 'CvIndexError', a[1][1], e)      # l[i]: IndexError out of range
+            die(e, 'subscript')
+        if isinstance(e, ast.Tuple) and len(e.elts) == 1 and not isinstance(e.elts[0], ast.Starred):
+            a = self.expr(e.elts[0], env)
+            return '[%s]' % a[0], TL(a[1])               # (x,): a tuple is carried as the list of its components
+        if isinstance(e, ast.DictComp):
+            if len(e.generators) != 1 or e.generators[0].ifs or e.generators[0].is_async:
+                die(e, 'dictionary comprehension form')
+            g = e.generators[0]
+            it, ety = self.iterable(g.iter, env)
+            env2, pre = self.quiet(lambda: self.bind_target(g.target, 'itd_', ety, env, e))
+            k = self.quiet(lambda: self.key(e.key, env2))
+            v = self.quiet(lambda: self.num(self.expr(e.value, env2), T_Q, e))
+            return '(py_dict_of (map (fun itd_ => %s(%s, %s)) %s))' % (pre, k, v, it), CV_DICT
+        if isinstance(e, ast.Call):
+            return self.call(e, env)
+        die(e, 'expression')
+
+    def comp(self, elt, generators, env, node, depth=0):
+        g = generators[0]
+        if g.is_async:
+            die(node, 'async comprehension')
+        it, ety = self.iterable(g.iter, env)
+        var = 'it%d_' % depth if depth else 'it_'
+        env2, pre = self.bind_target(g.target, var, ety, env, node)
+        src = it
+        if g.ifs:
+            c = ' && '.join(self.cond(x, env2) for x in g.ifs)
+            src = '(filter (fun %s => %s%s) %s)' % (var, pre, c if len(g.ifs) == 1 else '(%s)' % c, it)
+        if len(generators) == 1:
+            t, ty = self.expr(elt, env2)
+            return '(map (fun %s => %s%s) %s)' % (var, pre, t, src), ty
+        inner, ty = self.comp(elt, generators[1:], env2, node, depth + 1)
+        return '(flat_map (fun %s => %s%s) %s)' % (var, pre, inner, src), ty
+
+    def call(self, e, env):
+        fn = e.func
+        name = ast.unparse(fn)
+        args = e.args
+        if e.keywords or any(isinstance(a, ast.Starred) for a in args):
+            die(e, 'argument list')
+        if name == 'Fraction' and len(args) == 2:
+            a, b = self.expr(args[0], env), self.expr(args[1], env)
+            return '(py_frac %s %s)' % (self.num(a, T_Q, e), self.num(b, T_Q, e)), T_Q
+        if name == 'len' and len(args) == 1:
+            a = self.expr(args[0], env)
+            if isinstance(a[1], tuple) and a[1][0] in ('L', 'S') and a[1] != TS(T_I):
+                return '(py_len %s)' % a[0], T_Z
+            die(e, 'len of a %s' % (a[1],))
+        if name == 'frozenset' and len(args) == 1:
+            if isinstance(args[0], ast.GeneratorExp):
+                t, ty = self.quiet(lambda: self.comp(args[0].elt, args[0].generators, env, e))
+            else:
+                t, ty0 = self.expr(args[0], env)
+                if not (isinstance(ty0, tuple) and ty0[0] in ('L', 'S', 'M')):
+                    die(e, 'frozenset of a %s' % (ty0,))
+                ty = ty0[1]
+            if ty == T_I and not isinstance(args[0], ast.GeneratorExp):
+                return t, TS(T_I)       # a frozenset of items: carried as the list it is built from, only usable as a dictionary key
+            if ty != T_C:
+                die(e, 'frozenset of items of type %s' % (ty,))
+            return '(py_frozenset %s)' % t, TS(T_C)
+        if name == 'dict' and len(args) == 1:
+            self.builtin('dict', e, env)
+            a = self.expr(args[0], env)
+            if a[1] == CV_DICT:
+                return a          # dict(d): a copy (a defaultdict becomes a plain dictionary with the same items)
+            die(e, 'dict of a %s' % (a[1],))
+        if isinstance(fn, ast.Attribute) and fn.attr == 'get' and len(args) == 2:
+            d = self.expr(fn.value, env)
+            if d[1] != CV_DICT:
+                die(e, 'get on a %s' % (d[1],))
+            return '(py_dict_get %s %s %s)' % (d[0], self.key(args[0], env), self.num(self.expr(args[1], env), T_Q, e)), T_Q
+        if isinstance(fn, ast.Attribute) and fn.attr == 'difference' and len(args) == 1:
+            a, b = self.expr(fn.value, env), self.expr(args[0], env)
+            if a[1] == TS(T_C) and isinstance(b[1], tuple) and b[1][0] in ('L', 'S', 'M') and b[1][1] == T_C:
+                return '(py_set_difference %s %s)' % (a[0], b[0]), TS(T_C)
+            if a[1] == TS(T_C) and b[1] == TL(T_I):
+                return '(py_set_difference_items %s %s)' % (a[0], b[0]), TS(T_C)
+            die(e, 'difference of %s / %s' % (a[1], b[1]))
+        if name == 'isinstance' and len(args) == 2 and ast.unparse(args[1]) == 'collections.abc.Set':
+            self.builtin('isinstance', e, env)
+            self.need_collections(e, env)
+            a = self.expr(args[0], env)
+            if a[1] == T_I:
+                return '(py_is_set %s)' % a[0], T_B
+            die(e, 'isinstance test on a %s' % (a[1],))
+        if name in self.ext:
+            cn, ptys, rty, module = self.ext[name]
+            if module not in self.imports or name.split('.')[0] in env:
+                die(e, 'the source does not reach %s through a plain `import %s`' % (name, module))
+            if len(args) != len(ptys):
+                die(e, 'argument list of %s' % name)
+            out = []
+            for a, pt in zip(args, ptys):
+                x = self.expr(a, env)
+                if x[1] != pt:
+                    die(e, 'argument of type %s where %s is expected' % (x[1], pt))
+                out.append(x[0])
+            return '(%s %s)' % (cn, ' '.join(out)), rty
+        die(e, 'call')
+
+    def iterable(self, e, env):
+        if isinstance(e, ast.Call) and isinstance(e.func, ast.Attribute) and e.func.attr in ('items', 'values') and not e.args and not e.keywords:
+            t, ty = self.expr(e.func.value, env)
+            if isinstance(ty, tuple) and ty[0] == 'D':
+                if e.func.attr == 'items':
+                    return t, TP(ty[1], ty[2])
+                return '(map snd %s)' % t, ty[2]
+            die(e, '.%s() of a %s' % (e.func.attr, ty))
+        if isinstance(e, ast.Call) and isinstance(e.func, ast.Name) and e.func.id == 'enumerate' and len(e.args) == 1 and not e.keywords \
+                and not isinstance(e.args[0], ast.Starred):
+            self.builtin('enumerate', e, env)
+            t, ty = self.expr(e.args[0], env)
+            if isinstance(ty, tuple) and ty[0] == 'L' and not isinstance(ty[1], TyVar):
+                return '(py_enumerate %s)' % t, TP(T_Z, ty[1])
+            die(e, 'enumerate of a %s' % (ty,))
+        t, ty = self.expr(e, env)
+        if isinstance(ty, tuple) and ty[0] in ('L', 'S') and not isinstance(ty[1], TyVar) and ty != TS(T_I):
+            return t, ty[1]
+        if isinstance(ty, tuple) and ty[0] == 'D':
+            return '(map fst %s)' % t, ty[1]       # iterating a dictionary: its keys
+        if ty == T_I:
+            return self.partial('(py_item_iter %s)' % t, 'CvTypeError', TL(T_I), e)[0], T_I      # a plain candidate is not iterable
+        if ty == T_V:
+            return self.partial('(py_iter_v %s)' % t, 'CvTypeError', TL(T_I), e)[0], T_I
+        die(e, 'iteration over a %s' % (ty,))
+
+    def bind_target(self, target, var, ety, env, node):
+        env = dict(env)
+        if isinstance(target, ast.Name):
+            nm = self.ident(target.id)
+            env[target.id] = (nm, ety)
+            env.pop(('head', target.id), None)
+            return env, 'let %s := %s in ' % (nm, var)
+        if isinstance(target, ast.Tuple) and len(target.elts) == 2 and isinstance(ety, tuple) and ety[0] == 'P':
+            pre = ''
+            for x, proj, ty in ((target.elts[0], 'fst', ety[1]), (target.elts[1], 'snd', ety[2])):
+                env, p2 = self.bind_target(x, '(%s %s)' % (proj, var), ty, env, node)
+                pre += p2
+            return env, pre
+        if isinstance(target, ast.Tuple) and len(target.elts) == 3 and isinstance(ety, tuple) and ety[0] == 'P' \
+                and isinstance(ety[2], tuple) and ety[2][0] == 'P':
+            # a triple is carried as (a, (b, c))
+            env, p1 = self.bind_target(target.elts[0], '(fst %s)' % var, ety[1], env, node)
+            env, p2 = self.bind_target(ast.Tuple(elts=target.elts[1:], ctx=ast.Store()), '(snd %s)' % var, ety[2], env, node)
+            return env, p1 + p2
+        die(node, 'loop target')
+
+    # ---- statements
+    def assigned(self, stmts, out=None):
+        """the locals the statements (re)bind or change in place, in order of first occurrence"""
+        out = [] if out is None else out
+
+        def add(r):
+            if r is None or r.startswith('self.'):
+                die(s, 'assignment target')
+            if r not in out:
+                out.append(r)
+        for s in _strip(stmts):
+            if isinstance(s, ast.Assign) and len(s.targets) == 1:
+                tg = s.targets[0]
+                add(self.ref(tg.value) if isinstance(tg, ast.Subscript) else self.ref(tg))
+            elif isinstance(s, ast.AugAssign):
+                tg = s.target
+                add(self.ref(tg.value) if isinstance(tg, ast.Subscript) else self.ref(tg))
+            elif isinstance(s, ast.Expr) and isinstance(s.value, ast.Call):
+                c = s.value
+                if isinstance(c.func, ast.Attribute) and c.func.attr in ('add', 'update', 'append', 'extend') and isinstance(c.func.value, ast.Name):
+                    add(c.func.value.id)
+                elif ast.unparse(c.func) in self.known and self.known[ast.unparse(c.func)].get('mutates') == 0 and c.args \
+                        and isinstance(c.args[0], ast.Name):
+                    add(c.args[0].id)
+                else:
+                    die(s, 'statement')
+            elif isinstance(s, ast.If):
+                self.assigned(s.body, out)
+                self.assigned(s.orelse, out)
+            elif isinstance(s, ast.For):
+                tnames = {n.id for n in ast.walk(s.target) if isinstance(n, ast.Name)}
+                inner = self.assigned(s.body, [])
+                for r in inner:
+                    if r not in tnames and r not in out:
+                        out.append(r)
+            else:
+                die(s, 'statement')
+        return out
+
+    def assigned_x(self, stmts):
+        out = self.assigned(stmts)
+        return out + ['#exn'] if self.raises else out
+
+    @staticmethod
+    def tuple_of(parts):
+        return parts[0] if len(parts) == 1 else '(%s, %s)' % (parts[0], CV.tuple_of(parts[1:]))
+
+    @staticmethod
+    def projections(var, n):
+        out, cur = [], var
+        for i in range(n):
+            if i == n - 1:
+                out.append(cur)
+            else:
+                out.append('(fst %s)' % cur)
+                cur = '(snd %s)' % cur
+        return out
+
+    def state_fin(self, state, env0, node, want=None):
+        """want: local -> the type it leaves the block with (default: the type it enters with)"""
+        def fin(e2):
+            parts = []
+            for r in state:
+                w = self.res((want or {}).get(r, env0[r][1] if r in env0 else None))
+                if isinstance(w, tuple) and w[0] == 'O' and (r not in env0 or env0[r][0] is None):
+                    # a local bound on some paths only
+                    if r in e2 and e2[r][0] is not None:
+                        if self.res(e2[r][1]) != w[1]:
+                            die(node, 'local %s is bound with different types' % r)
+                        parts.append('(Some %s)' % e2[r][0])
+                    else:
+                        parts.append('None')
+                    continue
+                if r not in e2 or e2[r][0] is None:
+                    die(node, 'local %s has no value at the end of the block' % r)
+                have = self.res(e2[r][1])
+                if have == w:
+                    parts.append(e2[r][0])
+                elif w == T_V and have == T_I:
+                    parts.append('(VI %s)' % e2[r][0])
+                elif w == T_V and have == TL(T_I):
+                    parts.append('(VT %s)' % e2[r][0])
+                else:
+                    die(node, 'local %s changes its type (%s -> %s)' % (r, w, have))
+            return self.tuple_of(parts)
+        return fin
+
+    def rebind(self, state, text, env, k, node, want=None):
+        """let <state> := text in <k>"""
+        env = dict(env)
+        for r, ty in (want or {}).items():
+            if r in state:
+                nm = env[r][0] if r in env and env[r][0] is not None else self.ident(r)
+                env[r] = (nm, ty)
+        for key_ in [x for x in env if isinstance(x, tuple) and x[0] == 'head' and x[1] in state]:
+            del env[key_]
+        if len(state) == 1:
+            return 'let %s := %s in\n  %s' % (env[state[0]][0], text, k(env))
+        # several locals: a destructuring let (a match on the tuple: nothing is duplicated when the term is unfolded)
+        return "let '%s := %s in\n  %s" % (self.tuple_of([env[r][0] for r in state]), text, k(env))
+
+    def drop_locals(self, env, names):
+        env = dict(env)
+        for r in names:
+            env[r] = (None, 'DEAD')      # bound on some paths / in the last iteration only
+        return env
+
+    def block(self, stmts, env, fin):
+        stmts = _strip(stmts)
+        if not stmts:
+            if fin is None:
+                die(ast.Pass(), 'control falls off the end of the function')
+            return fin(env)
+        s, rest = stmts[0], stmts[1:]
+
+        def k(env2):
+            return self.block(rest, env2, fin)
+        if isinstance(s, ast.Return):
+            if rest or s.value is None or self.depth or fin is not None:
+                die(s, 'return form (only as the last statement of the function)')
+            t, ty = self.expr(s.value, env)
+            if ty != CV_DICT:
+                die(s, 'result of type %s' % (ty,))
+            if self.raises:
+                return self.flush() + "(py_result exn' %s)" % t
+            return t
+        if self.raises and isinstance(s, (ast.Assign, ast.AugAssign, ast.Expr)):
+            # the operations hoisted by the expressions of this statement go in front of it
+            done = {}
+
+            def k2(env2):
+                done['pre'] = self.flush()
+                return k(env2)
+            text = self.stmt(s, env, k2)
+            return done['pre'] + text
+        return self.stmt(s, env, k)
+
+    def stmt(self, s, env, k):
+        if isinstance(s, ast.Assign):
+            if len(s.targets) != 1:
+                die(s, 'multiple assignment')
+            tg, v = s.targets[0], s.value
+            if isinstance(tg, ast.Subscript):
+                d = self.ref(tg.value)
+                if d is None or d not in env or env[d][1] != CV_DICT or d not in self.mutable or isinstance(tg.slice, ast.Slice):
+                    die(s, 'item assignment to something that is not a dictionary built here')
+                key_ = self.key(tg.slice, env)
+                val = self.num(self.expr(v, env), T_Q, s)
+                return 'let %s := (py_dict_set %s %s %s) in\n  %s' % (env[d][0], env[d][0], key_, val, k(env))
+            if not isinstance(tg, ast.Name):
+                die(s, 'assignment target')
+            r = tg.id
+            env2 = dict(env)
+            env2.pop(('head', r), None)
+            nm = self.ident(r)
+            self.dd.discard(r)
+            self.mutable.discard(r)
+            src = ast.unparse(v)
+            if src == 'collections.defaultdict(int)':
+                self.need_collections(v, env)
+                self.builtin('int', v, env)
+                env2[r] = (nm, CV_DICT)
+                self.dd.add(r)
+                self.mutable.add(r)
+                return 'let %s := ([] : pydict) in\n  %s' % (nm, k(env2))
+            if isinstance(v, ast.Dict) and not v.keys:
+                env2[r] = (nm, CV_DICT)
+                self.mutable.add(r)
+                return 'let %s := ([] : pydict) in\n  %s' % (nm, k(env2))
+            if src == 'set()':
+                self.builtin('set', v, env)
+                env2[r] = (nm, TM(T_C))
+                self.mutable.add(r)
+                return 'let %s := ([] : list C) in\n  %s' % (nm, k(env2))
+            if isinstance(v, ast.List) and not v.elts:
+                tv = TyVar()
+                env2[r] = (nm, TL(tv))
+                self.mutable.add(r)
+                return 'let %s := ([] : list (%s)) in\n  %s' % (nm, cv_type(tv), k(env2))
+            if isinstance(v, ast.Name) and (v.id in self.mutable or v.id in self.dd):
+                die(s, 'a second name for a dictionary / set / list this function changes in place')
+            t, ty = self.expr(v, env)
+            env2[r] = (nm, ty)
+            return 'let %s := %s in\n  %s' % (nm, t, k(env2))
+        if isinstance(s, ast.AugAssign):
+            tg = s.target
+            if isinstance(tg, ast.Subscript) and isinstance(s.op, ast.Add) and not isinstance(tg.slice, ast.Slice):
+                d = self.ref(tg.value)
+                if d is None or d not in env or env[d][1] != CV_DICT or d not in self.dd:
+                    die(s, '+= on an item of something that is not a defaultdict(int) built here (KeyError on a missing key)')
+                key_ = self.key(tg.slice, env)
+                val = self.num(self.expr(s.value, env), T_Q, s)
+                return 'let %s := (py_dd_add %s %s %s) in\n  %s' % (env[d][0], env[d][0], key_, val, k(env))
+            die(s, 'augmented assignment')
+        if isinstance(s, ast.Expr) and isinstance(s.value, ast.Call):
+            c = s.value
+            if c.keywords or any(isinstance(a, ast.Starred) for a in c.args):
+                die(s, 'argument list')
+            if isinstance(c.func, ast.Attribute) and c.func.attr in ('add', 'update') and isinstance(c.func.value, ast.Name) and len(c.args) == 1:
+                r = c.func.value.id
+                if r not in env or env[r][1] != TM(T_C) or r not in self.mutable:
+                    die(s, '%s on something that is not a set built here' % c.func.attr)
+                a = self.expr(c.args[0], env)
+                if c.func.attr == 'add':
+                    if a[1] != T_C:
+                        die(s, 'add of a %s' % (a[1],))
+                    return 'let %s := (%s ++ [%s]) in\n  %s' % (env[r][0], env[r][0], a[0], k(env))
+                if not (isinstance(a[1], tuple) and a[1][0] in ('L', 'S') and a[1][1] == T_C):
+                    die(s, 'update by a %s' % (a[1],))
+                return 'let %s := (%s ++ %s) in\n  %s' % (env[r][0], env[r][0], a[0], k(env))
+            if isinstance(c.func, ast.Attribute) and c.func.attr in ('append', 'extend') and isinstance(c.func.value, ast.Name) and len(c.args) == 1:
+                r = c.func.value.id
+                if r not in env or env[r][0] is None or not (isinstance(env[r][1], tuple) and env[r][1][0] == 'L') or r not in self.mutable:
+                    die(s, '%s on something that is not a list built here' % c.func.attr)
+                tv = env[r][1][1]
+                if c.func.attr == 'append':
+                    a = self.expr(c.args[0], env)
+                    add, ety = '[%s]' % a[0], a[1]
+                else:
+                    it, ety = self.iterable(c.args[0], env)
+                    add = it
+                if isinstance(tv, TyVar) and tv.val is None:
+                    if isinstance(ety, TyVar) or ety in ('DEAD', 'EXN'):
+                        die(s, 'item type')
+                    tv.val = ety
+                if self.res(tv) != self.res(ety):
+                    die(s, '%s of a %s to a list of %s' % (c.func.attr, ety, self.res(tv)))
+                return 'let %s := (%s ++ %s) in\n  %s' % (env[r][0], env[r][0], add, k(env))
+            name = ast.unparse(c.func)
+            kn = self.known.get(name)
+            if kn is not None and kn.get('mutates') == 0 and len(c.args) == len(kn['params']) and isinstance(c.args[0], ast.Name):
+                if kn.get('module') is not None and (kn['module'] not in self.imports or name.split('.')[0] in env):
+                    die(s, 'the source does not reach %s through a plain `import %s`' % (name, kn['module']))
+                r = c.args[0].id
+                if r not in env or env[r][1] != kn['params'][0] or r not in self.mutable:
+                    die(s, 'first argument of %s is not a dictionary built here' % name)
+                out = [env[r][0]]
+                for a, pt in zip(c.args[1:], kn['params'][1:]):
+                    x = self.expr(a, env)
+                    if x[1] != pt:
+                        die(s, 'argument of type %s where %s is expected' % (x[1], pt))
+                    out.append(x[0])
+                return 'let %s := (%s %s) in\n  %s' % (env[r][0], kn['coq'], ' '.join(out), k(env))
+            die(s, 'call statement')
+        if isinstance(s, ast.If):
+            return self.if_stmt(s, env, k)
+        if isinstance(s, ast.For):
+            return self.for_stmt(s, env, k)
+        die(s, 'statement')
+
+    def if_stmt(self, s, env, k):
+        assigned = self.assigned_x(list(s.body) + list(s.orelse))
+        state = [r for r in assigned if r in env and env[r][0] is not None]
+        local = [r for r in assigned if r not in state]
+        if not state and not local:
+            die(s, 'conditional without an effect on the translated locals')
+        test, swap = s.test, False
+        if isinstance(test, ast.UnaryOp) and isinstance(test.op, ast.Not) and isinstance(test.operand, ast.Call) \
+                and ast.unparse(test.operand.func) == 'isinstance':
+            test, swap = test.operand, True
+        et, ee = dict(env), dict(env)
+        if isinstance(test, ast.Call) and ast.unparse(test.func) == 'isinstance' and len(test.args) == 2 and not test.keywords \
+                and isinstance(test.args[0], ast.Name) and test.args[0].id in env and env[test.args[0].id][1] == T_I \
+                and test.args[0].id not in assigned:
+            self.builtin('isinstance', test, env)
+            if ast.unparse(test.args[1]) != 'collections.abc.Set':
+                die(test, 'isinstance test')
+            self.need_collections(test, env)
+            x = test.args[0].id
+            nm = env[x][0].rstrip("'")
+            ns, nc = nm + "'s", nm + "'c"
+            et[x], ee[x] = (ns, TS(T_C)), (nc, T_C)
+            if swap:
+                et, ee = ee, et
+
+            def mk(a, b):
+                if swap:
+                    a, b = b, a
+                return '(match %s with IS %s => %s | IP %s => %s end)' % (env[x][0], ns, a, nc, b)
+        elif isinstance(s.test, ast.Name) and s.test.id in env and env[s.test.id][0] is not None and isinstance(self.res(env[s.test.id][1]), tuple) \
+                and self.res(env[s.test.id][1])[0] == 'L' and not isinstance(self.res(env[s.test.id][1])[1], TyVar) and s.test.id not in assigned:
+            x = s.test.id
+            hd = env[x][0].rstrip("'") + "'hd"
+            et[('head', x)] = (hd, self.res(env[x][1])[1])
+
+            def mk(a, b):
+                return '(match %s with %s :: _ => %s | [] => %s end)' % (env[x][0], hd, a, b)
+        else:
+            c = self.cond(s.test, env)
+
+            def mk(a, b):
+                return '(if %s then %s else %s)' % (c, a, b)
+        pre = self.flush()
+        self.depth += 1
+        # dry run: the types the locals leave the two paths with
+        seen = []
+
+        def probe(e2):
+            seen.append({r: ((self.res(e2[r][1]) if e2[r][0] is not None else None) if r in e2 else None) for r in state + local})
+            return '?'
+        snap = (set(self.dd), set(self.mutable), list(self.pending) if self.pending is not None else None, self.nh)
+        self.block(s.body, et, probe)
+        self.dd, self.mutable, self.pending, self.nh = set(snap[0]), set(snap[1]), (list(snap[2]) if snap[2] is not None else None), snap[3]
+        if _strip(s.orelse):
+            self.block(s.orelse, ee, probe)
+        else:
+            probe(ee)
+        self.dd, self.mutable, self.pending, self.nh = set(snap[0]), set(snap[1]), (list(snap[2]) if snap[2] is not None else None), snap[3]
+        want, keep = {}, []
+        for r in state + local:
+            ta, tb = seen[0][r], seen[1][r]
+            if r in state:
+                if ta is None or tb is None:
+                    die(s, 'local %s has no value at the end of a path' % r)
+                if ta == tb:
+                    want[r] = ta
+                elif {ta, tb} == {T_I, TL(T_I)} or (T_V in (ta, tb) and {ta, tb} <= {T_V, T_I, TL(T_I)}):
+                    want[r] = T_V
+                else:
+                    die(s, 'local %s leaves the two paths as %s / %s' % (r, ta, tb))
+                keep.append(r)
+            elif ta is not None and tb is not None and ta == tb and ta not in ('DEAD', 'EXN'):
+                want[r] = ta            # bound on both paths
+                keep.append(r)
+            elif (ta is None) != (tb is None) and (ta or tb) not in ('DEAD', 'EXN') and self.raises:
+                want[r] = TO(ta or tb)  # bound on one path only: its later use may raise UnboundLocalError
+                keep.append(r)
+        if not keep:
+            die(s, 'conditional without an effect on the translated locals')
+        fin = self.state_fin(keep, env, s, want)
+        dd0, mut0 = set(self.dd), set(self.mutable)
+        a = self.block(s.body, et, fin)
+        dd1, mut1 = set(self.dd), set(self.mutable)
+        self.dd, self.mutable = set(dd0), set(mut0)
+        b = self.block(s.orelse, ee, fin) if _strip(s.orelse) else fin(ee)
+        self.dd, self.mutable = self.dd & dd1, self.mutable & mut1
+        self.depth -= 1
+        return pre + self.rebind(keep, mk(a, b), self.drop_locals(env, [r for r in local if r not in keep]), k, s, want)
+
+    def for_stmt(self, s, env, k):
+        if s.orelse:
+            die(s, 'for-else')
+        for st_ in s.body:
+            for n in ast.walk(st_):
+                if isinstance(n, (ast.Return, ast.Raise, ast.Break, ast.Continue, ast.While, ast.AsyncFor, ast.Try, ast.With,
+                                  ast.FunctionDef, ast.AsyncFunctionDef, ast.ClassDef, ast.Lambda, ast.Yield, ast.YieldFrom, ast.Await,
+                                  ast.Global, ast.Nonlocal, ast.Delete, ast.NamedExpr)):
+                    die(n, 'loop body form (%s)' % type(n).__name__)
+        it, ety = self.iterable(s.iter, env)
+        pre0 = self.flush()
+        targets = [n.id for n in ast.walk(s.target) if isinstance(n, ast.Name)]
+        if any(t in env and env[t][1] != 'DEAD' for t in targets):
+            die(s, 'loop target rebinds a local')
+        assigned = self.assigned_x(s.body)
+        state = [r for r in assigned if r in env and env[r][0] is not None and r not in targets]
+        local = [r for r in assigned if r not in state]
+        if not state:
+            die(s, 'loop without an effect on the translated locals')
+        for r in state:
+            if _mentions(s.iter, r):
+                die(s, 'loop over a value its own body changes')
+        self.depth += 1
+        d = self.depth
+        stv, itv = 'st%d_' % d, 'it%d_' % d
+        env2, pre = self.bind_target(s.target, itv, ety, env, s)
+        fin = self.state_fin(state, env, s)
+        dd0, mut0 = set(self.dd), set(self.mutable)
+        body = self.block(s.body, env2, fin)
+        self.dd, self.mutable = self.dd & dd0, self.mutable & mut0
+        self.depth -= 1
+        if len(state) == 1:
+            head = 'fun %s %s => ' % (env[state[0]][0], itv)
+        else:
+            head = "fun %s %s => let '%s := %s in " % (stv, itv, self.tuple_of([env[r][0] for r in state]), stv)
+        init = self.tuple_of([env[r][0] for r in state])
+        text = '(fold_left (%s%s%s) %s %s)' % (head, pre, body, it, init)
+        return pre0 + self.rebind(state, text, self.drop_locals(env, local + targets), k, s)
+
+
+CONVERT_HEADER = """(* GENERATED by tools/py2v.py (part 6) from %s -- do not edit. *)
+From Coq Require Import ZArith QArith List Bool.
+From VL Require Import Prelude.Sx Prelude.PyDict Prelude.GDict Prelude.PyNum Prelude.PyList Prelude.PySeq Prelude.PyConv Model.GetNBest Model.Convert.
+Import ListNotations.
+(* Model.Convert is imported for the value representation only ([item], the wire keys kc / kset / kitem, canon_set); dictionaries,
+   sets and their operations are read by Prelude/PyConv.v.  A loop is a fold_left over what it iterates, its state the locals its
+   body changes. *)
+"""
+# unit -> [(source file, [definition])]; a definition: name, cls | None, fn, params=[(coq name, python reference, type)],
+#   static (a @staticmethod), mutates (index of the parameter the function updates in place: its final value is the result)
+CONVERT_UNITS = [
+    ('Convert', [
+        ('votelib/util.py', [
+            dict(name='add_dict_to_dict', cls=None, fn='add_dict_to_dict', mutates=0,
+                 params=[('dict1', 'dict1', CV_DICT), ('dict2', 'dict2', CV_DICT)]),
+        ]),
+        ('votelib/convert.py', [
+            dict(name='ApprovalToSimpleVotes_convert', cls='ApprovalToSimpleVotes', fn='convert',
+                 params=[('split', 'self.split', T_B), ('votes', 'votes', CV_APPROVAL)]),
+            dict(name='RankedToFirstPreference_convert', cls='RankedToFirstPreference', fn='convert',
+                 params=[('votes', 'votes', CV_RANKED)]),
+            dict(name='RankedToApprovalVotes_convert', cls='RankedToApprovalVotes', fn='convert',
+                 params=[('votes', 'votes', CV_RANKED)]),
+            dict(name='ScoreToApprovalVotesThreshold_convert', cls='ScoreToApprovalVotesThreshold', fn='convert',
+                 params=[('threshold', 'self.threshold', T_Q), ('votes', 'votes', CV_SCORE)]),
+            dict(name='InvertedSimpleVotes_convert', cls='InvertedSimpleVotes', fn='convert', static=True,
+                 params=[('votes', 'votes', CV_DICT)]),
+            dict(name='VoteTotals_convert', cls='VoteTotals', fn='convert',
+                 params=[('votes', 'votes', CV_NESTED)]),
+            dict(name='InvertedApprovalVotes_convert', cls='InvertedApprovalVotes', fn='convert', static=True,
+                 params=[('votes', 'votes', CV_APPROVAL)]),
+            dict(name='RankedToFirstNPreferences_convert', cls='RankedToFirstNPreferences', fn='convert',
+                 params=[('n_first', 'self.n_first', T_Z), ('votes', 'votes', CV_RANKED)]),
+            # votelib.util.all_rankings is a generator with a while loop: not translated, a function parameter (candidate, (rank, count))
+            dict(name='RankedToPresenceCounts_convert', cls='RankedToPresenceCounts', fn='convert',
+                 ext={'votelib.util.all_rankings': ('all_rankings', [CV_RANKED], TL(TP(T_C, TP(T_Z, T_Q))), 'votelib.util')},
+                 params=[('votes', 'votes', CV_RANKED)]),
+        ]),
+    ]),
+    # dynamically typed, nested loops over the ranks: its own unit, so that a rewrite the translator refuses leaves the unit above alone
+    ('ConvertPairs', [
+        ('votelib/convert.py', [
+            dict(name='RankedToCondorcetVotes_convert', cls='RankedToCondorcetVotes', fn='convert', raises=True,
+                 ext={'votelib.util.all_ranked_candidates': ('all_ranked_candidates', [CV_RANKED], TL(T_C), 'votelib.util')},
+                 params=[('unranked_at_bottom', 'self.unranked_at_bottom', T_B), ('votes', 'votes', CV_RANKED)]),
+        ]),
+    ]),
+]
+
+
+def translate_convert_unit(repo, files):
+    """-> (text, status dict)"""
+    srcs = ', '.join(rel for rel, _ in files)
+    out, functions, notes, known = [], {}, {}, {}
+    allnames = [d['name'] for _, defs in files for d in defs]
+    try:
+        for rel, defs in files:
+            tree = ast.parse(open(os.path.join(repo, rel)).read())
+            classes = {n.name: n for n in tree.body if isinstance(n, ast.ClassDef)}
+            funcs = {n.name: n for n in tree.body if isinstance(n, ast.FunctionDef)}
+            rebound = _rebound_names(tree)
+            module_names = _module_names(tree)
+            imports = {al.name for n in tree.body if isinstance(n, ast.Import) for al in n.names if al.asname is None}
+            module = rel[:-3].replace('/', '.')
+            for d in defs:
+                name = d['name']
+                try:
+                    if d.get('cls'):
+                        cd = classes.get(d['cls'])
+                        if cd is None:
+                            raise Unsupported('class %s not found' % d['cls'])
+                        if len([n for n in tree.body if isinstance(n, ast.ClassDef) and n.name == d['cls']]) != 1:
+                            raise Unsupported('class %s defined more than once' % d['cls'])
+                        meths = [m for m in cd.body if isinstance(m, (ast.FunctionDef, ast.AsyncFunctionDef)) and m.name == d['fn']]
+                        if len(meths) != 1 or not isinstance(meths[0], ast.FunctionDef):
+                            raise Unsupported('method %s.%s not found exactly once' % (d['cls'], d['fn']))
+                        fd = meths[0]
+                        decos = [ast.unparse(x) for x in fd.decorator_list]
+                        if decos != (['staticmethod'] if d.get('static') else []):
+                            die(fd, 'decorators %s' % decos)
+                        attrs = [r[5:] for _, r, _ in d['params'] if r.startswith('self.')]
+                        _check_ctor(cd, attrs, {})
+                        moved = _attr_stores_elsewhere(cd, attrs, ())
+                        if moved:
+                            die(cd, 'attribute(s) %s assigned outside __init__' % sorted(moved))
+                        pyparams = [a.arg for a in fd.args.args[(0 if d.get('static') else 1):]]
+                        if not d.get('static') and (not fd.args.args or fd.args.args[0].arg != 'self'):
+                            die(fd, 'first parameter is not self')
+                    else:
+                        fd = funcs.get(d['fn'])
+                        if fd is None or module_names.get(d['fn']) != 'def':
+                            raise Unsupported('function %s not found exactly once' % d['fn'])
+                        if fd.decorator_list:
+                            die(fd, 'decorated function')
+                        pyparams = [a.arg for a in fd.args.args]
+                    if fd.args.vararg or fd.args.kwarg or fd.args.kwonlyargs or fd.args.posonlyargs or fd.args.defaults:
+                        die(fd, 'parameter list')
+                    used = {n.id for n in ast.walk(fd) if isinstance(n, ast.Name)} & rebound
+                    if used:
+                        die(fd, 'the module rebinds %s, which the translator reads with a fixed meaning' % sorted(used))
+                    env = {}
+                    declared = [r for _, r, _ in d['params'] if not r.startswith('self.')]
+                    if declared != pyparams:
+                        die(fd, 'parameters %s where %s are declared' % (pyparams, declared))
+                    mut = d.get('mutates')
+                    ext = d.get('ext') or {}
+                    cv = CV(known, module_names, imports, [declared[mut]] if mut is not None else [], bool(d.get('raises')), ext)
+                    for cn, r, ty in d['params']:
+                        env[r] = (cn, ty)
+                    if d.get('raises'):
+                        env['#exn'] = ("exn'", 'EXN')
+                    if mut is None:
+                        text = cv.block(fd.body, env, None)
+                    else:
+                        if any(isinstance(n, ast.Return) for n in ast.walk(fd)) or d.get('raises'):
+                            die(fd, 'return in a function that is read through the argument it updates')
+                        text = cv.block(fd.body, env, lambda e2, r=declared[mut]: e2[r][0])
+                    if d.get('raises'):
+                        text = "let exn' := (None : option cvexn) in\n  " + text
+
+                    def tv_sub(m):
+                        tv = [t for t in TyVar.live if t.id == int(m.group(1))]
+                        if not tv or cv.res(tv[0]) is tv[0]:
+                            raise Unsupported('a list that starts as [] never gets an item of a known type')
+                        return cv_type(cv.res(tv[0]))
+                    text = re.sub(r'@@TV(\d+)@@', tv_sub, text)
+                    eparams = ['(%s : %s)' % (cn, cv_type(TFUN(ptys, rty))) for cn, ptys, rty, _ in ext.values()]
+                    plist = ' '.join(eparams + ['(%s : %s)' % (cn, cv_type(ty)) for cn, r, ty in d['params']])
+                    out.append('Definition %s %s : %s :=\n  %s.' % (name, plist, 'pydict + cvexn' if d.get('raises') else 'pydict', text))
+                    functions[name] = 'ok'
+                    if not d.get('cls'):
+                        known['%s.%s' % (module, d['fn'])] = dict(coq=name, params=[ty for _, _, ty in d['params']], mutates=mut, module=module)
+                except Unsupported as e:
+                    functions[name] = 'unsupported: %s' % e
+        missing = [n for n in allnames if functions.get(n) != 'ok']
+        st = dict(status='ok' if not missing else 'partial', functions=functions, missing=missing, source=srcs, notes=notes)
+        text = (CONVERT_HEADER % srcs) + '\n' + '\n\n'.join(out) + '\n'
+    except (Unsupported, SyntaxError, OSError, RecursionError) as e:
+        text = CONVERT_HEADER % srcs
+        st = dict(status='failed', reason=str(e), source=srcs, missing=allnames)
+    return text, st
+
 
 
 def main():
@@ -3651,6 +4609,13 @@ def main():
         old = open(path_).read() if os.path.exists(path_) else None
         if old != t_:
             open(path_, 'w').write(t_)
+    # part 6: accumulating converters (statement translator CV)
+    for unit, files in CONVERT_UNITS:
+        ctext_, st[unit] = translate_convert_unit(repo, files)
+        path_ = os.path.join(outdir, unit + '.v')
+        old = open(path_).read() if os.path.exists(path_) else None
+        if old != ctext_:
+            open(path_, 'w').write(ctext_)
     # part 5: class / signature tables of the whole package
     dst = os.path.join(outdir, 'Signatures.v')
     jdst = os.path.join(outdir, 'Signatures.json')
